@@ -28,6 +28,8 @@ inductive Err where
   | colsOob
   /-- `solver.eigenvectors().rightCols(target_dimension)` of a `k × k` local eigenproblem with `target_dimension > k` -/
   | localColsOob
+  /-- an error state of `hessian_weight_matrix`'s column bookkeeping (never: `C08.hlle_index_ok`) -/
+  | hlle (e : LocallyLinear.Err)
   deriving Repr, DecidableEq
 
 /-- `KernelDistance::distance(l, r) = sqrt(κ(l,l) − 2 κ(l,r) + κ(r,r))` (`sqrtO` = libm's `sqrt`) -/
